@@ -492,9 +492,9 @@ impl Azks {
         };
 
         // handle the right child in the current task
-        if !right_azks_element_set.is_empty() {
+        let right_result = if !right_azks_element_set.is_empty() {
             let right_child_label = current_node.get_child_label(Direction::Right);
-            let (mut right_node, right_is_new, right_num_inserted) =
+            Some(
                 Azks::recursive_batch_insert_nodes::<TC, _>(
                     storage,
                     right_child_label,
@@ -503,18 +503,34 @@ impl Azks {
                     insert_mode,
                     child_parallel_levels,
                 )
-                .await?;
+                .await,
+            )
+        } else {
+            None
+        };
 
+        // join on the handle for the left child, if present. This is done before an error of the
+        // right child is propagated: otherwise the task of the left child would be detached and
+        // keep writing nodes after the caller has rolled the transaction back.
+        let left_result = match maybe_handle {
+            Some(handle) => Some(
+                handle
+                    .await
+                    .map_err(|e| AkdError::Parallelism(ParallelismError::JoinErr(e.to_string())))
+                    .and_then(|result| result),
+            ),
+            None => None,
+        };
+
+        if let Some(right_result) = right_result {
+            let (mut right_node, right_is_new, right_num_inserted) = right_result?;
             current_node.set_child(&mut right_node)?;
             right_node.write_to_storage(storage, right_is_new).await?;
             num_inserted += right_num_inserted;
         }
 
-        // join on the handle for the left child, if present
-        if let Some(handle) = maybe_handle {
-            let (mut left_node, left_is_new, left_num_inserted) = handle
-                .await
-                .map_err(|e| AkdError::Parallelism(ParallelismError::JoinErr(e.to_string())))??;
+        if let Some(left_result) = left_result {
+            let (mut left_node, left_is_new, left_num_inserted) = left_result?;
             current_node.set_child(&mut left_node)?;
             left_node.write_to_storage(storage, left_is_new).await?;
             num_inserted += left_num_inserted;
